@@ -49,3 +49,12 @@ package conway
 //@   ensures exact: typed && err == nil && nred != 0 ==> bal * 100 >= N(atx.Body.TxFee) * N(app.CollateralPercentage)
 //@   cover accepts: typed && err == nil && nred != 0 && len(ins) > 0
 //@   loop 0 invariant rangeindex < len(ins) && val(totalCollateral) == common.collSum(ins, ls, rangeindex + 1)
+
+// C34: with body validation enabled the era decoder succeeds only if ValidateBlockBodyHash accepted
+// these very bytes against the decoded header's own body hash, over the era's 5 top-level items.
+//@ func NewConwayBlockFromCbor(data, config) (blk, err)
+//@   props C34
+//@   attr trackcalls on
+//@   ensures checked: err == nil && !old(len(config) > 0 && config[0].SkipBodyHashValidation) ==>
+//@       called(ValidateBlockBodyHash) && callres(ValidateBlockBodyHash) == nil && callarg(ValidateBlockBodyHash, 0) == data &&
+//@       callarg(ValidateBlockBodyHash, 3) == 5 && called(BlockBodyHash) && callarg(ValidateBlockBodyHash, 1) == callres(BlockBodyHash)
